@@ -14,6 +14,7 @@ import ConfModel.Lemmas.Library
 import ConfModel.Lemmas.LibraryAccept
 import ConfModel.Lemmas.LibraryNames
 import ConfModel.Generated.C07Facts
+import ConfModel.Lemmas.EchoLoad
 namespace ConfModel.Props.C07
 open ConfModel.Config ConfModel.Library
 
@@ -295,6 +296,55 @@ theorem expansion_deterministic (join : List String → String) (suites : List S
 raw response only in client mode and with an explicit expected response. -/
 theorem raw_payload_mode (suites : List Suite) : parseSuites suites = none ↔ RawPayloadsOk suites :=
   parseSuites_none suites
+
+/-! ### the same restriction on the model of the whole load (`EchoLoad`, shared with C02), whose
+test cases carry their request messages: `hasRaw` is `hasRawResponse` (first message only, and only
+messages that define a response).  The three checks are independent of each other: a test case with
+a raw request is examined for a raw response all the same. -/
+
+/-- **Mode-specific payload restrictions of whatever loads.**  If `parseTestSuites` +
+`newTestCaseLibrary` accept the suites (any configuration, any run mode), then every test case of
+every suite — of the run's mode or not — has a raw request only if its suite's mode is server, and a
+raw response only if its suite's mode is client and then with an explicit expected response. -/
+theorem loaded_raw_payload_mode (applies : EchoLoad.Suite → Bool) (mode : Nat) (ss : List EchoLoad.Suite)
+    (h : EchoLoad.load applies mode ss = .ok ()) :
+    ∀ s ∈ ss, ∀ c ∈ s.cases,
+      (c.rawRequest = true → s.mode = 2) ∧
+      (EchoLoad.hasRaw c = true → s.mode = 1 ∧ c.explicit = true) := by
+  intro s hs c hc
+  have hp := EchoLoad.load_ok_parse applies mode ss h s hs c hc
+  exact ⟨hp.1, hp.2.1⟩
+
+/-- … in particular a test case with BOTH a raw request and a raw response never loads, whatever
+its suite's mode, the run mode and its expected response -/
+theorem raw_request_and_response_never_load (applies : EchoLoad.Suite → Bool) (mode : Nat) (ss : List EchoLoad.Suite)
+    (s : EchoLoad.Suite) (c : EchoLoad.Case) (hs : s ∈ ss) (hc : c ∈ s.cases)
+    (hrq : c.rawRequest = true) (hrs : EchoLoad.hasRaw c = true) :
+    EchoLoad.load applies mode ss ≠ .ok () := by
+  intro h
+  have := loaded_raw_payload_mode applies mode ss h s hs c hc
+  have h2 := this.1 hrq
+  have h1 := (this.2 hrs).1
+  omega
+
+/-- the complete table of the parser's verdict on one test case over {raw request} × {raw response}
+× {explicit expected response} × suite mode {unspecified, client, server} (no expand directives):
+accepted exactly when each payload marker that is present sits in its mode, the raw response with
+its expected response — 7 of the 24 combinations, none of them with both markers -/
+theorem raw_payload_matrix :
+    ∀ (rq rs ex : Bool) (m : Fin 3),
+      EchoLoad.parseCase ⟨"R", m.val, [], [], false, false, false, 0, []⟩ ⟨"m", 1, false, false, [.unary], rq, rs, ex, []⟩ = none ↔
+        ((rq = true → m.val = 2) ∧ (rs = true → m.val = 1 ∧ ex = true)) := by decide
+
+/-! non-vacuity: a server-mode suite with a raw request loads in a server-mode run; a client-mode
+suite with a raw response and its expected response loads in a client-mode run; both markers on one
+case are rejected in every suite mode -/
+private def rawCase (rq rs ex : Bool) : EchoLoad.Case := ⟨"m", 1, false, false, [.unary], rq, rs, ex, []⟩
+private def rawSuite (m : Nat) (c : EchoLoad.Case) : EchoLoad.Suite := ⟨"R", m, [], [], false, false, false, 0, [c]⟩
+example : EchoLoad.loadErr EchoLoad.cfgApplies 2 [rawSuite 2 (rawCase true false false)] = none ∧
+    EchoLoad.loadErr EchoLoad.cfgApplies 1 [rawSuite 1 (rawCase false true true)] = none ∧
+    EchoLoad.hasRaw (rawCase true true true) = true := by decide
+example : ∀ m : Fin 3, ∀ run : Fin 3, (EchoLoad.loadErr EchoLoad.cfgApplies run.val [rawSuite m.val (rawCase true true true)]).isSome = true := by decide
 
 /-! non-vacuity: a suite leaving versions and TLS open, relying on nothing, one unary test -/
 
